@@ -250,6 +250,10 @@ def m_external_data(mp, rng):
     for k, v in entries:
         e = t.external_data.add()
         e.key, e.value = k, v
+    if rng.random() < 0.5:
+        # ... combined with dims from which no sensible size follows (negative, zero, huge)
+        del t.dims[:]
+        t.dims.extend(rng.choice([[-1, 4], [-3], [0], [2**40], [3, -2, 2]]))
 
 
 def m_external_without_flag(mp, rng):
